@@ -145,8 +145,10 @@ int tbl_write(const hist_t* h, uint8_t** img, size_t* len, carquet_status_t* st,
     if (!w) { *st = err.code ? err.code : CARQUET_ERROR_INTERNAL; *where = "writer_create_file"; fclose(f); free(mem); carquet_schema_free(s); return 1; }
     if (run_history(h, w, st, where)) { carquet_writer_abort(w); fclose(f); free(mem); carquet_schema_free(s); return 1; }
     *st = carquet_writer_close(w);
+    size_t seen_after_close = mlen;      /* a memory stream publishes its size when it is flushed: OK from close means the whole file has left the stdio buffer of a caller-owned stream */
     fclose(f); carquet_schema_free(s);
     if (*st != CARQUET_OK) { *where = "close"; free(mem); return 1; }
+    if (seen_after_close != mlen) { *st = CARQUET_ERROR_FILE_WRITE; *where = "close returned OK with bytes still in the caller's stream buffer"; free(mem); return 1; }
     *img = mc_exact(mem, mlen); *len = mlen; free(mem);
     return 0;
 }
